@@ -323,6 +323,10 @@ class CallGraph:
                     return self._ctor(repo.classes[ref]), [ref], "construct", False, False
                 if not ref.startswith(("ramses_",)) or ref.split(".")[0] not in ("ramses_tx", "ramses_rf", "ramses_cli"):
                     return [], [ref], "call", False, False
+            # a local bound once to a lookup in a module-level function table
+            reg0 = self._registry_targets(f, func)
+            if reg0 is not None:
+                return reg0, [], "call", False, False
             # a local variable holding a class / function
             at = self.atoms(f, func) or ()
             callees: list[FuncInfo] = []
@@ -495,6 +499,13 @@ class CallGraph:
     def _registry_targets(self, f: FuncInfo, func: ast.expr) -> list[FuncInfo] | None:
         cont = None
         default = None
+        if isinstance(func, ast.Name):
+            # a local bound once to a registry lookup: `parser = TABLE.get(code, default)` ... `parser(payload, msg)`
+            defs = [n for n in own_nodes(f.node) if isinstance(n, (ast.Assign, ast.AnnAssign)) and n.value is not None and any(isinstance(t, ast.Name) and t.id == func.id for t in (n.targets if isinstance(n, ast.Assign) else [n.target]))]
+            params = {a.arg for a in f.node.args.posonlyargs + f.node.args.args + f.node.args.kwonlyargs}
+            if len(defs) == 1 and func.id not in params and isinstance(defs[0].value, (ast.Call, ast.Subscript)):
+                return self._registry_targets(f, defs[0].value)
+            return None
         if isinstance(func, ast.Call) and isinstance(func.func, ast.Attribute) and func.func.attr == "get":
             cont = func.func.value
             if len(func.args) > 1:
